@@ -41,7 +41,8 @@ def run_case(ctx, case, rng):
     if run.exc is not None:
       sig = common.exc_signature(run.exc)
       ctx.count('raised:' + name)
-      ctx.violation('rejected', {'exc': sig, 'phase': run.phase, 'control_flow_subgraphs': 'control_flow' in spec.classes},
+      ctx.violation('rejected', {'exc': sig, 'phase': run.phase, 'control_flow_subgraphs': 'control_flow' in spec.classes,
+                                 'tied_bias': 'tied_bias' in spec.classes},
                     {'recipe': name, 'ops': common.describe_model(spec.content, src),
                      'classes': sorted(spec.classes), 'message': str(run.exc)[:300]})
     else:
